@@ -101,6 +101,13 @@ def main(tier, seed):
     p_dupadapt.stage(chk, "C17")
     import p_adaptkey
     p_adaptkey.stage(chk, "C17")
+    # write a request, close(), then read the answer on the same adapter
+    cout, _ = vlib.run_impl(["asyncclose"], ["x"], timeout=120)
+    chk.cov["close_then_read_on_one_adapter"] = cout[0][:200] if cout else "no output"
+    if not cout or cout[0].strip() != "wrote=3 closed=1 read=abc finished=1":
+        chk.violation("oracle-close", "C17 violated on the real code: a task wrote a request through the adapter, awaited close() and then read the peer's answer, which "
+                      "arrived after its first read attempt: it must be woken and read exactly `abc`\nclose case: x\n# result: %s" % (cout[0][:300] if cout else ""))
+        return chk.finish()
     cases = gen_cases(tier, seed)
     impl, ilog = vlib.run_impl(["async"], cases, timeout=900)
     replays = []
@@ -174,6 +181,11 @@ def replay(path):
     if "dupadapt case" in open(path).read():
         import p_dupadapt
         return p_dupadapt.replay(path)
+    if "close case:" in open(path).read():
+        vlib.build_harness()
+        out, _ = vlib.run_impl(["asyncclose"], ["x"])
+        print(out[0] if out else "no output")
+        return 0 if out and out[0].strip() == "wrote=3 closed=1 read=abc finished=1" else 1
     if "adaptkey case" in open(path).read():
         import p_adaptkey
         return p_adaptkey.replay(path, "C17")
